@@ -1,4 +1,5 @@
 import ElfiVerif.Proofs.Results
+import ElfiVerif.Proofs.ResultsCI
 
 /-!
 # C16 — result objects report what the sampler produced
@@ -79,5 +80,17 @@ theorem ess_textbook (chains : List (List K)) :
       ((chains.length : K) * (n : K)) /
         (1 + 2 * (((List.range' 1 (n - 1)).map rho).takeWhile (fun t => decide ((0 : K) ≤ t))).sum) :=
   ess_textbook' chains
+
+/-- **The 95 % interval is the pair of weighted 2.5 % / 97.5 % quantiles of exactly the stored samples**: both bounds
+are stored sample values, lower ≤ upper, and each satisfies the definition of the weighted quantile (the normalised
+weight of the values `≤` the bound reaches the level, the weight of the values `<` it does not exceed it) - for any
+non-negative weights with a positive sum, any sorting permutation (ties in any order).  Via C13's `quantile_spec`
+and `quantile_mono`. -/
+theorem ci95_spec (sort : List (K × K) → List (K × K)) (hs : ElfiVerif.Stats.SortOK sort) (v w : List K)
+    (hlen : v.length = w.length) (hw : ∀ a ∈ w, 0 ≤ a) (hsum : 0 < w.sum) :
+    ∃ lo hi, ci95 sort v (some w) = (some lo, some hi) ∧ lo ∈ v ∧ hi ∈ v ∧ lo ≤ hi ∧
+      (25 / 1000 ≤ ElfiVerif.Stats.wLE v w lo / w.sum ∧ ElfiVerif.Stats.wLT v w lo / w.sum ≤ 25 / 1000) ∧
+      (975 / 1000 ≤ ElfiVerif.Stats.wLE v w hi / w.sum ∧ ElfiVerif.Stats.wLT v w hi / w.sum ≤ 975 / 1000) :=
+  ci95_spec' sort hs v w hlen hw hsum
 
 end ElfiVerif.Results
